@@ -14,7 +14,8 @@ if r.returncode != 0:
     subprocess.run(["git", "-C", "/repo", "reset", "-q"], capture_output=True)   # keep the change in the working tree only
     if r.returncode != 0:
         subprocess.run(["git", "-C", "/repo", "checkout", "--", "."])
-        print("patch does not apply:", r.stderr)
+        subprocess.run(["git", "-C", "/repo", "clean", "-fdq", "src/", "tests/"])
+        print("patch does not apply to the current /repo HEAD (written against %s):" % "an earlier commit", r.stderr[:300])
         sys.exit(2)
 res = {}
 # evidence/ and replays/ describe the unchanged tree; keep them out of the way while the patch is applied
